@@ -3,7 +3,7 @@
    The screen is what the independent interpreter TermGrid makes of the characters written. *)
 From RichModel Require Import Prelude Cells TermGrid Live SpecLive.
 From RichGen Require Import LiveCodes.
-From RichProofs Require Import TermGridP LiveP LiveP2 LiveP3.
+From RichProofs Require Import TermGridP LiveP CursorP LiveP2 LiveP3 LiveP4.
 
 (* (1) erase_clears: position_cursor for a frame of h rows, interpreted with the cursor on the last
    of h non-blank rows (under `pre` further rows), blanks exactly those h rows and leaves the cursor
@@ -59,7 +59,7 @@ Proof. exact screen_invariant. Qed.
 Print Assumptions C10_screen_invariant.
 
 Example C10_screen_invariant_nonvacuous :
-  let c := mkCfg false false OEllipsis 12 3 None None true false false false false in
+  let c := mkCfg false false OEllipsis 12 3 None None true false false false false false in
   ops_ok c (st0 c (w_lines 2))
     [Print (w_lines 1); Start; Refresh; Print (w_lines 4); Update (w_lines 7) true; Log (w_lines 1);
      Update [] false; Print (w_lines 1); Update (w_lines 1) true; Start; Stop; Print (w_lines 1)] = true.
@@ -78,10 +78,22 @@ Theorem C10_after_stop : forall c f0 ops, nofault c -> ops_ok c (st0 c f0) ops =
 Proof. exact after_stop. Qed.
 Print Assumptions C10_after_stop.
 
-(* cursor_never_above_region, at operation granularity: after every operation of such a history the
-   cursor row is >= the number of printed lines (view_ok_b pins it exactly).  The per-character
-   version (cursor_ok_b) is evaluated on the implementation's bytes for every generated history; it
-   is not a theorem. *)
+(* cursor_never_above_region, PER CHARACTER: cut the output of such a history at operation boundaries;
+   while the characters of one operation are replayed -- every intermediate parser state included --
+   the cursor is never on a row above the first row below the lines printed before that operation
+   (cursor_ok_b is the checker that the harness evaluates on the implementation's bytes). *)
+Theorem C10_cursor_never_above : forall c f0 ops, nofault c -> ops_ok c (st0 c f0) ops = true ->
+  cursor_ok_b (Hn c) (run_chunks c (st0 c f0) ops) = true.
+Proof. exact cursor_never_above. Qed.
+Print Assumptions C10_cursor_never_above.
+
+(* Status: rich/status.py is a thin wrapper and the model treats it as exactly that; the facts are
+   regenerated from the source on every run (an edit breaks this obligation).  What the spinner and the
+   status renderable look like is immaterial: every theorem quantifies over ALL frames. *)
+Example C10_status_is_a_transient_live :
+  status_live_transient = true /\ status_overflow_mode = 1 /\ status_update_refreshes = true
+  /\ status_delegates = true /\ status_frame_is_grid_row = true.
+Proof. repeat split. Qed.
 
 (* (3) cleanup_on_raise, flags: after `with display: body`, whatever raised wherever (any fault
    index for render and for get_renderable, raising user renderables, nested start/stop in the body),
@@ -115,7 +127,7 @@ Proof. exact block_propagates. Qed.
 Print Assumptions C10_exception_propagates.
 
 Example C10_exception_propagates_nonvacuous :
-  let c := mkCfg false true OEllipsis 12 4 (Some 2%nat) None true false false false false in
+  let c := mkCfg false true OEllipsis 12 4 (Some 2%nat) None true false false false false false in
   fired c (fst (run_block c (w_lines 2) [w_lines 1] [Refresh; Print (w_lines 1); Refresh; Print (w_lines 1)])) = true.
 Proof. vm_compute. reflexivity. Qed.
 
@@ -153,9 +165,12 @@ Example C10_after_stop_transient_tall_repaired : view_of (d23_cfg true true) (d2
 Proof. exact d23_repaired_ok. Qed.
 
 (* excluded by hypothesis everywhere above, and why: no overflow handling in these two cases *)
-Theorem C10_progress_too_tall_refuted :
-  view_of tall_cfg (fst (run_ops tall_cfg (st0 tall_cfg (w_lines 5)) [Start; Print (w_lines 1)])) = false.
+Theorem C10_progress_too_tall_refuted : view_of (tall_cfg false) (tall_run false) = false.
 Proof. exact progress_too_tall_refuted. Qed.
+(* repaired (T3 fact live_render_crops_to_page): LiveRender crops to the page like _LiveRender; in
+   general the cropped frame meets the side condition of C10_screen_invariant *)
+Example C10_progress_too_tall_repaired : view_of (tall_cfg true) (tall_run true) = true.
+Proof. exact progress_too_tall_repaired_ok. Qed.
 Theorem C10_visible_too_tall_refuted :
   view_of vis_cfg (fst (run_ops vis_cfg (st0 vis_cfg (w_lines 5)) [Start; Refresh; Print (w_lines 1)])) = false.
 Proof. exact visible_too_tall_refuted. Qed.
